@@ -15,47 +15,66 @@ lost = []
 if '--prop' in sys.argv:
     prop = sys.argv[sys.argv.index('--prop') + 1]
 tmp = tempfile.mkdtemp(prefix='govc-sweep-')
-repo = os.path.join(tmp, 'repo')
-subprocess.check_call(['rsync', '-a', '--exclude', '.git', '/repo/', repo + '/'])
+from concurrent.futures import ThreadPoolExecutor
+import threading, queue
+NW = int(os.environ.get('SEEDSWEEP_WORKERS', '4'))
+pool = queue.Queue()
+for w in range(NW):
+    r = os.path.join(tmp, f'repo{w}')
+    subprocess.check_call(['rsync', '-a', '--exclude', '.git', '/repo/', r + '/'])
+    pool.put((w, r))
 rows = []
-try:
-    for d in sorted(glob.glob(os.path.join(V, 'seeded', '*'))):
-        mp = os.path.join(d, 'meta.json')
-        if not os.path.exists(mp):
-            continue
-        meta = json.load(open(mp))
-        checks = meta.get('checks', [meta['property']])
-        if prop and prop not in checks:
-            continue
+lock = threading.Lock()
+
+def one(d):
+    mp = os.path.join(d, 'meta.json')
+    if not os.path.exists(mp):
+        return
+    meta = json.load(open(mp))
+    checks = meta.get('checks', [meta['property']])
+    if prop and prop not in checks:
+        return
+    w, repo = pool.get()
+    try:
         patch = os.path.join(d, 'patch.diff')
         r = subprocess.run(['patch', '-p1', '-s', '-d', repo, '-i', patch], capture_output=True, text=True)
         if r.returncode != 0:
-            rows.append((meta['id'], 'PATCH-DOES-NOT-APPLY', []))
             subprocess.run(['rsync', '-a', '--delete', '--exclude', '.git', '/repo/', repo + '/'])
-            continue
+            with lock:
+                rows.append((meta['id'], 'PATCH-DOES-NOT-APPLY', []))
+                print(meta['id'], 'PATCH-DOES-NOT-APPLY', flush=True)
+            return
         detected = []
         for c in checks:
             if prop and c != prop:
                 continue
-            out = subprocess.run([os.path.join(V, 'bin/govc'), '-repo', repo, '-prop', c, '-tier', 'quick', '-out', os.path.join(tmp, 'ev.json'),
-                                  '-known', os.path.join(V, 'KNOWN_FINDINGS.txt'), '-replays', os.path.join(tmp, 'replays')], capture_output=True, text=True).stdout
+            out = subprocess.run([os.path.join(V, 'bin/govc'), '-repo', repo, '-prop', c, '-tier', 'quick', '-out', os.path.join(tmp, f'ev{w}.json'),
+                                  '-known', os.path.join(V, 'KNOWN_FINDINGS.txt'), '-replays', os.path.join(tmp, f'replays{w}')], capture_output=True, text=True).stdout
             vs = [l for l in out.split('\n') if l.startswith('VIOLATION')]
             if vs:
-                obl = [w.split('=', 1)[1] for l in vs for w in l.split() if w.startswith('obligation=')]
+                obl = [x.split('=', 1)[1] for l in vs for x in l.split() if x.startswith('obligation=')]
                 conf = any('replayed=confirmed' in l for l in vs)
                 detected.append({'check': c, 'obligations': obl[:4], 'replayed_confirmed': conf})
         subprocess.run(['patch', '-p1', '-R', '-s', '-d', repo, '-i', patch], capture_output=True)
-        if require:
-            was = {x['check'] for x in meta.get('detected_by', [])}
-            now = {x['check'] for x in detected}
-            for c in sorted(was - now):
-                if not prop or c == prop:
-                    lost.append((meta['id'], c))
-        rows.append((meta['id'], 'DETECTED' if detected else 'missed', detected))
-        if write:
-            meta['detected_by'] = detected
-            json.dump(meta, open(mp, 'w'), indent=1)
-        print(meta['id'], 'DETECTED' if detected else 'missed', ' '.join(x['check'] + ':' + x['obligations'][0] for x in detected), flush=True)
+        with lock:
+            if require:
+                was = {x['check'] for x in meta.get('detected_by', [])}
+                now = {x['check'] for x in detected}
+                for c in sorted(was - now):
+                    if not prop or c == prop:
+                        lost.append((meta['id'], c))
+            rows.append((meta['id'], 'DETECTED' if detected else 'missed', detected))
+            if write:
+                meta['detected_by'] = detected
+                json.dump(meta, open(mp, 'w'), indent=1)
+            print(meta['id'], 'DETECTED' if detected else 'missed', ' '.join(x['check'] + ':' + x['obligations'][0] for x in detected), flush=True)
+    finally:
+        pool.put((w, repo))
+
+try:
+    with ThreadPoolExecutor(NW) as ex:
+        list(ex.map(one, sorted(glob.glob(os.path.join(V, 'seeded', '*')))))
+    rows.sort()
 finally:
     shutil.rmtree(tmp, ignore_errors=True)
 if write:
